@@ -54,9 +54,13 @@ CONFIGS = {
                     SchN="1", SchD="1", **CVRP, **FLOOR), world="cvrp-reinforce", trace_sample=20),
     ],
     "thorough": [
-        dict(C=dict(MaxEpochs="6", Bs="{1,2}", A0N="1", A0D="1", DN="1", DD="2", Theta0="1", Shifts="{0,3}", ShiftOff="1",
+        dict(C=dict(MaxEpochs="5", Bs="{1,2}", A0N="1", A0D="1", DN="1", DD="2", Theta0="1", Shifts="{0,3}", ShiftOff="1",
                     SchN="3", SchD="4", **TSP, **FLOOR), world="tsp-pomo", trace_sample=100),
-        dict(C=dict(MaxEpochs="4", Bs="{1,2}", A0N="3", A0D="4", DN="1", DD="1", Theta0="1", Shifts="{0,1,3}", ShiftOff="1",
+        # six epochs, one training shift
+        dict(C=dict(MaxEpochs="6", Bs="{1,2}", A0N="1", A0D="1", DN="1", DD="2", Theta0="1", Shifts="{3}", ShiftOff="1",
+                    SchN="3", SchD="4", **TSP, **FLOOR), world="tsp-pomo", trace_sample=60),
+        # three tasks, three shifts, constant alpha 3/4
+        dict(C=dict(MaxEpochs="3", Bs="{1,2}", A0N="3", A0D="4", DN="1", DD="1", Theta0="1", Shifts="{0,1,3}", ShiftOff="1",
                     SchN="1", SchD="2", MinSize="6", MaxSize="8", Size0="7", Cap0="0", HasCap="FALSE", **FLOOR),
              world="tsp-pomo", trace_sample=100),
         dict(C=dict(MaxEpochs="4", Bs="{1,2}", A0N="3", A0D="10000", DN="1", DD="2", Theta0="2", Shifts="{2,4}", ShiftOff="1",
@@ -381,7 +385,8 @@ def fit_trace(max_ep, K, world, seed, S=10000, lr=LR0, n_probes=3):
                                 val_data_size=4, test_data_size=4)
     cb = make_callback(K)
     keys = [k for k, v in mod.state_dict().items() if v.dtype.is_floating_point and v.numel() > 0]
-    probes = [(keys[(i * (len(keys) - 1)) // max(1, n_probes - 1)], 0) for i in range(n_probes)]
+    n_cand = 4 * n_probes                  # candidates; the n_probes coordinates that training moved most are kept
+    probes = [(keys[(i * (len(keys) - 1)) // max(1, n_cand - 1)], 0) for i in range(n_cand)]
     events, cur = [], {"sizes": [], "obsv": None, "n_drawn": 0}
 
     def snapshot():
@@ -431,7 +436,14 @@ def fit_trace(max_ep, K, world, seed, S=10000, lr=LR0, n_probes=3):
                                callbacks=[Before(), cb, After()])
         trainer.fit(mod)
     recs = []
+    moved = []
+    for i in range(len(probes)):
+        vals = [e["obs"][i]["pol"] for e in events]
+        moved.append(sum(abs(a - b) for a, b in zip(vals, vals[1:])))
+    keep = sorted(sorted(range(len(probes)), key=lambda i: -moved[i])[:n_probes])
     for i, pr in enumerate(probes):
+        if i not in keep:
+            continue
         evs = []
         for e in events:
             o = e["obs"][i]
@@ -444,7 +456,7 @@ def fit_trace(max_ep, K, world, seed, S=10000, lr=LR0, n_probes=3):
         recs.append({"maxEp": max_ep, "B": K["B"], "S": S, "tol": 3, "pol0": scaled(float(pol0[pr[0]].reshape(-1)[pr[1]]), S),
                      "ev": evs, "probe": "%s[%d]" % pr})
     task_set = [(n,) for n in range(K["MinSize"], K["MaxSize"] + 1)]
-    notes = {"world": world, "probes": ["%s[%d]" % p for p in probes],
+    notes = {"world": world, "probes": [r["probe"] for r in recs],
              "populations_ok": all(p == task_set for e in events for p in e.get("pops", [])),
              "moved": [[r["ev"][k]["obs"]["pol"] for k in range(len(r["ev"])) if r["ev"][k]["a"] in ("train", "end")] for r in recs],
              "weight_decay_seen": sorted({e["obs"][0]["weight_decay"] for e in events}),
@@ -660,10 +672,12 @@ def violations(tier, seed):
         fit_notes.append(notes)
         if not notes["populations_ok"]:
             viol.append(mkviol("task-drawn-from-task-set", "fit-", recs[0], 0, "random.sample was given another population", inst))
-        ok_len = all(len(e["tasks"]) in (0, b) for e in recs[0]["ev"] if "tasks" in e)
-        if not ok_len:
+        # draws per hook: B at fit start and at the end of every epoch that completes a batch, none otherwise
+        got = [len(e["tasks"]) for e in recs[0]["ev"] if "tasks" in e]
+        want = [b] + [b if (e + 1) % b == 0 else 0 for e in range(len(got) - 1)]
+        if got != want:
             viol.append(mkviol("task-schedule", "fit-", recs[0], len(recs[0]["ev"]),
-                               "task draws per hook %s, expected 0 or %d" % ([len(e["tasks"]) for e in recs[0]["ev"] if "tasks" in e], b), inst))
+                               "task draws per hook (fit start, then every epoch end) %s, expected %s" % (got, want), inst))
             continue
         fails, drifts, st, _ = validate_records("ReptileTrace", recs, TRACE_INV, "fit%d" % fi, constants=C)
         states += st
